@@ -2,9 +2,9 @@
    Only ExtrOcamlBasic: bool, option, list, prod, unit, sumbool become OCaml types;
    nat, positive, N stay the Coq datatypes.  No Extract Constant. *)
 From Coq Require Import List NArith Extraction ExtrOcamlBasic.
-From Truc.Model Require Import Layout Builder Observe VecConv VecScript Ir Gen.
+From Truc.Model Require Import Layout Builder Observe VecConv VecScript Ir Gen TypeName.
 Extraction Language OCaml.
 Definition n_to_uint (n : N) := N.to_uint n.
 Definition gen_of_history (h : list req) (cfg : list fragment) : option (option (list item)) :=
   match Builder.build (Builder.run h) with None => None | Some d => Some (gen d cfg) end.
-Extraction "model.ml" observe n_to_uint N.of_nat N.succ observe_vec gen_of_history.
+Extraction "model.ml" observe n_to_uint N.of_nat N.succ observe_vec gen_of_history recorded_name short_ast key_of.
